@@ -1143,6 +1143,93 @@ pub fn directed() -> Vec<Request> {
             }
         }
     }
+    // the OTHER attributes an item can carry next to derive_ex's: each one on the type, on every
+    // variant, on every field and on every generic parameter of a few shapes; inner attributes and
+    // attributes on the items of an impl body
+    {
+        let foreign = [
+            "#[derive(Clone, Debug)]", "#[derive()]", "#[derive(Ex)]", "#[repr(u8)]", "#[repr(C, packed)]", "#[repr(transparent)]",
+            "#[non_exhaustive]", "#[cfg(test)]", "#[cfg(not(test))]", "#[cfg(any())]", "#[must_use]", "#[automatically_derived]",
+            "#[allow(dead_code)]", "#[deny(warnings)]", "#[deprecated(note = \"x\")]", "#[doc(hidden)]", "#[doc = r\"raw\"]",
+            "/** block doc */", "#[serde(rename = \"x\")]", "#[inline]", "#[path = \"x\"]", "#[rustfmt::skip]",
+            "#[cfg_attr(test, derive(PartialEq), derive_ex(Eq))]", "#[cfg_attr(all(), ord(ignore))]", "#[derive_ex::derive_ex(Clone)]",
+            "#[::derive_ex::derive_ex(Default)]", "#[derive_ex{Debug}]", "#[derive_ex[Debug]]", "#[macro_use]", "#[test]", "#[global_allocator]",
+        ];
+        let shapes = [
+            "struct X<T>(T, u8);",
+            "struct X<T> { a: T, #[ord(key = $.len())] b: String }",
+            "enum X<T> { A(T), #[default] B { b: u8 }, C }",
+            "struct X;",
+            "union X { a: u8, b: u32 }",
+        ];
+        for fa in foreign {
+            let Ok(attrs) = syn::parse::Parser::parse_str(syn::Attribute::parse_outer, fa) else { continue };
+            for shape in shapes {
+                let Ok(base) = syn::parse_str::<syn::DeriveInput>(shape) else { continue };
+                for place in 0..4 {
+                    use quote::ToTokens;
+                    let mut d = base.clone();
+                    let mut touched = false;
+                    if place == 0 {
+                        d.attrs.splice(0..0, attrs.iter().cloned());
+                        touched = true;
+                    }
+                    if place == 3 {
+                        for gp in d.generics.params.iter_mut() {
+                            match gp {
+                                syn::GenericParam::Type(t) => t.attrs.extend(attrs.iter().cloned()),
+                                syn::GenericParam::Lifetime(l) => l.attrs.extend(attrs.iter().cloned()),
+                                syn::GenericParam::Const(c) => c.attrs.extend(attrs.iter().cloned()),
+                            }
+                            touched = true;
+                        }
+                    }
+                    let on_fields = |fields: &mut syn::Fields| -> bool {
+                        let mut any = false;
+                        for f in fields.iter_mut() {
+                            f.attrs.extend(attrs.iter().cloned());
+                            any = true;
+                        }
+                        any
+                    };
+                    match &mut d.data {
+                        syn::Data::Struct(st) if place == 2 => touched |= on_fields(&mut st.fields),
+                        syn::Data::Enum(e) => {
+                            for v in e.variants.iter_mut() {
+                                if place == 1 {
+                                    v.attrs.extend(attrs.iter().cloned());
+                                    touched = true;
+                                }
+                                if place == 2 {
+                                    touched |= on_fields(&mut v.fields);
+                                }
+                            }
+                        }
+                        syn::Data::Union(u) if place == 2 => {
+                            for f in u.fields.named.iter_mut() {
+                                f.attrs.extend(attrs.iter().cloned());
+                                touched = true;
+                            }
+                        }
+                        _ => {}
+                    }
+                    if !touched {
+                        continue;
+                    }
+                    let item = d.to_token_stream().to_string();
+                    for list in ["Clone, Debug, Default, Ord, PartialOrd, Eq, PartialEq, Hash", "Add, Neg"] {
+                        out.push(Request { mode: Mode::Attr, attr: list.into(), item: item.clone() });
+                    }
+                    out.push(Request { mode: Mode::Derive, attr: String::new(), item: format!("#[derive_ex(Clone, Debug, Default, PartialOrd, PartialEq, Hash)] {item}") });
+                }
+            }
+            out.push(Request { mode: Mode::Attr, attr: "Add, AddAssign".into(), item: format!("{fa} impl Add for X {{ #![allow(unused)] {fa} type Output = X; {fa} fn add(self, rhs: X) -> X {{ self }} }}") });
+            out.push(Request { mode: Mode::Attr, attr: "Sub".into(), item: format!("impl<{fa} T> SubAssign<T> for X<T> {{ {fa} fn sub_assign(&mut self, rhs: T) {{}} }}") });
+        }
+        for inner in ["#![derive_ex(Sub)]", "#![allow(unused)]", "#![doc = \"d\"]", "//! inner doc\n", "#![cfg(x)]", "#![ord(ignore)]"] {
+            out.push(Request { mode: Mode::Attr, attr: "Add, AddAssign".into(), item: format!("impl Add for X {{ {inner} type Output = X; fn add(self, rhs: X) -> X {{ self }} }}") });
+        }
+    }
     // normalise to the printed token form and drop what is not a valid request
     let mut res = Vec::new();
     let mut seen = std::collections::BTreeSet::new();
